@@ -9,6 +9,7 @@ Seams used (all pre-existing in bumpver, nothing is patched inside /repo):
   logging    our own root handler (so logging.basicConfig inside bumpver is a no-op)
 """
 import os
+import time
 import sys
 import errno
 import shutil
@@ -370,6 +371,8 @@ def invoke(cwd, argv, today, vcs_shim=None, hook_shim=None, glob_perm=None, now=
     for k, v in (environ or {}).items():
         saved_env[k] = os.environ.get(k)
         os.environ[k] = v
+    if "TZ" in saved_env:
+        time.tzset()       # the zone the process was started in
     wf = _WriteFault(cwd, write_fault) if write_fault else None
     try:
         runner = click.testing.CliRunner()
@@ -387,6 +390,8 @@ def invoke(cwd, argv, today, vcs_shim=None, hook_shim=None, glob_perm=None, now=
                 os.environ.pop(k, None)
             else:
                 os.environ[k] = v
+        if "TZ" in saved_env:
+            time.tzset()
         pathlib.Path.glob = _state["orig_glob"]
         bumpver.vcs.sp = _state["orig_sp_vcs"]
         bumpver.hooks.sp = _state["orig_sp_hooks"]
